@@ -457,17 +457,22 @@ def rule_reparent(ctx) -> RuleResult:
             res.find("Entity", "parent", "_parent stored without add_children on the new parent", st.where, "the new parent does not list the entity")
     # the chain reaches the file: EntityContainer/ObjectBase.remove_children -> workspace.remove_children -> H5Writer.remove_child
     wr = p.func("Workspace.remove_children")
-    ok4 = any(isinstance(c, ast.Call) and isinstance(c.func, ast.Attribute) and c.func.attr == "_io_call" and c.args and unparse(c.args[0]) == "H5Writer.remove_child" for c in ast.walk(ctx.view(wr).node))
+    from ._c02_flow import writer_calls_of
+
+    WSK = p.cls("Workspace")
+    wrv = ctx.view(wr)
+    # (the writer call may be direct, go through a forwarding method, or take its function and arguments from locals bound per branch)
+    unlink_calls = [(c, args) for c in ast.walk(wrv.node) if isinstance(c, ast.Call) for fname, args in writer_calls_of(c, wrv.node, WSK) if fname == "H5Writer.remove_child"]
+    ok4 = bool(unlink_calls)
     res.inst("Workspace.remove_children -> _io_call(H5Writer.remove_child, child.uid, <kind>, parent)", ok=ok4)
     if not ok4:
         res.find("Workspace", "remove_children", "no H5Writer.remove_child call", wr.where, "the old parent's link stays on file")
     # ... and unlinks THAT child: the uid and the name of the link container both derive from the same element of the list
     from ..normalize import expanded as _expanded
 
-    wrv = ctx.view(wr)
-    for c in ast.walk(wrv.node):
-        if isinstance(c, ast.Call) and isinstance(c.func, ast.Attribute) and c.func.attr == "_io_call" and len(c.args) >= 3 and unparse(c.args[0]) == "H5Writer.remove_child":
-            uid_x, kind_x = _expanded(c.args[1], wrv.node), _expanded(c.args[2], wrv.node)
+    for c, wargs in unlink_calls:
+        if len(wargs) >= 2:
+            uid_x, kind_x = _expanded(wargs[0], wrv.node), _expanded(wargs[1], wrv.node)
             subject = uid_x.value.id if isinstance(uid_x, ast.Attribute) and uid_x.attr == "uid" and isinstance(uid_x.value, ast.Name) else None
             bound = {y.id for x in ast.walk(kind_x) if isinstance(x, ast.comprehension) for y in ast.walk(x.target) if isinstance(y, ast.Name)}
             ok6 = subject is not None and subject not in bound and any(isinstance(x, ast.Name) and x.id == subject for x in ast.walk(kind_x))
@@ -734,8 +739,10 @@ def rule_orphan(ctx) -> RuleResult:
             return any(isinstance(x, ast.Name) and x.id == E for x in ast.walk(_expanded(c.args[0], rv.node, sa)))
         return False
 
+    from ._c02_flow import writer_calls_of
+
     def deletes(c):
-        return isinstance(c.func, ast.Attribute) and c.func.attr == "_io_call" and len(c.args) >= 2 and unparse(c.args[0]) == "H5Writer.remove_entity" and xt(c.args[1]) == f"{E}.uid"
+        return any(fname == "H5Writer.remove_entity" and args and xt(args[0]) == f"{E}.uid" for fname, args in writer_calls_of(c, rv.node, WS))
 
     g = CFG(rv.node)
     det = [n for n in g.nodes if has_call(n, detaches)]
@@ -820,7 +827,7 @@ def rule_orphan(ctx) -> RuleResult:
         """the final save of the tree: H5Writer.save_entity / save_entity applied to the root group"""
         if not isinstance(c.func, ast.Attribute):
             return False
-        if c.func.attr == "_io_call" and c.args and unparse(c.args[0]) == "H5Writer.save_entity":
+        if any(fname == "H5Writer.save_entity" for fname, _ in writer_calls_of(c, cv.node, WS)):
             return True
         return c.func.attr == "save_entity" and any(xc(a) in ("self.root", "self._root") for a in c.args)
 
